@@ -343,6 +343,16 @@ Theorem gauss_jordan_nan_aware_returns :
                gj_run (NumO K isz) dense false n msk (lst K s0) = Ok (lst K s').
 Proof. exact gj_run_nan_aware. Qed.
 
+Theorem gauss_jordan_upper_triangular_nan_aware_returns :
+  forall (K : fld) (isz : K -> bool), (forall x, isz x = true <-> x = f0 K) ->
+  forall (n : nat) (msk : list bool) (dense : bool) (s0 : st (A:=K)),
+    wf_st K n s0 ->
+    upper_tri_S K (idxs msk 0 n) (sa s0) -> diag_nonzero_S K (idxs msk 0 n) (sa s0) ->
+    upper_tri_S K (idxs msk 0 n) (sx s0) ->
+    exists s', gj_run (NumK K) dense true n msk s0 = Ok s' /\
+               gj_run (NumO K isz) dense true n msk (lst K s0) = Ok (lst K s').
+Proof. exact gj_run_ut_nan_aware. Qed.
+
 (* every run is one of: all pivots non-zero and the finite field result  /  the singular exit
    (error on the dense path, panic on the generic path)  /  Ok with a non-finite entry in x AND in b *)
 Theorem gauss_jordan_nan_aware_trichotomy :
